@@ -242,3 +242,148 @@ example : run exCls (some (PT.idsL exTree)) [] 4 = [(3,0), (5,0)] := by
   rfl
 
 end Lopdf
+
+namespace Lopdf
+open Gen
+
+/-! ### concrete documents: the budget `iter_limit = |objects|` is always enough for an embedded
+tree whose nodes are distinct objects -/
+
+mutual
+def PT.allIds : PT → List ObjId
+  | .page id => [id]
+  | .pages id ks => id :: PT.allIdsL ks
+def PT.allIdsL : List PT → List ObjId
+  | [] => []
+  | t :: ts => t.allIds ++ PT.allIdsL ts
+end
+
+mutual
+theorem PT.allIds_length : ∀ t : PT, t.allIds.length = t.size
+  | .page _ => by simp [PT.allIds, PT.size]
+  | .pages _ ks => by simp [PT.allIds, PT.size, PT.allIdsL_length ks]; omega
+theorem PT.allIdsL_length : ∀ ts : List PT, (PT.allIdsL ts).length = PT.sizeL ts
+  | [] => by simp [PT.allIdsL, PT.sizeL]
+  | t :: ts => by simp [PT.allIdsL, PT.sizeL, PT.allIds_length t, PT.allIdsL_length ts]
+end
+
+def Objects.eraseKey (os : Objects) (id : ObjId) : Objects := os.filter (fun p => p.1 != id)
+
+theorem Objects.get_eraseKey_ne (os : Objects) (a id : ObjId) (h : id ≠ a) :
+    (os.eraseKey a).get id = os.get id := by
+  induction os with
+  | nil => rfl
+  | cons p rest ih =>
+    obtain ⟨k, v⟩ := p
+    unfold Objects.eraseKey at *
+    by_cases hk : k = a
+    · subst hk
+      have : ¬ k = id := fun e => h e.symm
+      have hf : ((k, v).1 != k) = false := by simp
+      rw [List.filter_cons_of_neg (by simp)]
+      simp [Objects.get, this, ih]
+    · have hf : List.filter (fun p : ObjId × Obj => p.1 != a) ((k, v) :: rest)
+          = (k, v) :: List.filter (fun p : ObjId × Obj => p.1 != a) rest := by simp [List.filter_cons, hk]
+      rw [hf]
+      by_cases hi : k = id
+      · simp [Objects.get, hi]
+      · simp [Objects.get, hi, ih]
+
+theorem Objects.length_eraseKey_lt (os : Objects) (a : ObjId) (h : (os.get a).isSome) :
+    (os.eraseKey a).length < os.length := by
+  induction os with
+  | nil => simp [Objects.get] at h
+  | cons p rest ih =>
+    obtain ⟨k, v⟩ := p
+    unfold Objects.eraseKey at *
+    by_cases hk : k = a
+    · subst hk
+      rw [List.filter_cons_of_neg (by simp)]
+      have := List.length_filter_le (fun p : ObjId × Obj => p.1 != k) rest
+      simp only [List.length_cons]
+      omega
+    · have hrest : (Objects.get rest a).isSome := by simpa [Objects.get, hk] using h
+      have := ih hrest
+      have hf : List.filter (fun p : ObjId × Obj => p.1 != a) ((k, v) :: rest)
+          = (k, v) :: List.filter (fun p : ObjId × Obj => p.1 != a) rest := by simp [List.filter_cons, hk]
+      rw [hf]
+      simp only [List.length_cons]
+      omega
+
+/-- distinct ids that all name objects of the document are at most as many as the objects -/
+theorem nodup_present_le (ids : List ObjId) : ∀ (os : Objects), ids.Nodup →
+    (∀ id ∈ ids, (os.get id).isSome) → ids.length ≤ os.length := by
+  induction ids with
+  | nil => intro os _ _; simp
+  | cons a rest ih =>
+    intro os hnd hpres
+    have ha := hpres a (by simp)
+    have hnd' := List.nodup_cons.mp hnd
+    have := ih (os.eraseKey a) hnd'.2 (by
+      intro id hid
+      have hne : id ≠ a := fun e => hnd'.1 (e ▸ hid)
+      rw [Objects.get_eraseKey_ne os a id hne]
+      exact hpres id (by simp [hid]))
+    have hl := Objects.length_eraseKey_lt os a ha
+    simp only [List.length_cons]
+    omega
+
+theorem getDictionary_some_present (os : Objects) (id : ObjId) (h : (getDictionary os id).isSome) :
+    (os.get id).isSome := by
+  unfold getDictionary getObject at h
+  cases hg : os.get id with
+  | none => simp [hg] at h
+  | some _ => simp
+
+theorem classify_present (os : Objects) (id : ObjId) (c : Cls) (hc : classify os (.ref id.1 id.2) = c)
+    (hne : c ≠ .skip) : (os.get id).isSome := by
+  unfold classify at hc
+  simp only [Obj.asRef] at hc
+  cases hd : getDictionary os id with
+  | none => simp [hd] at hc; exact absurd hc.symm hne
+  | some d => exact getDictionary_some_present os id (by simp [hd])
+
+mutual
+theorem Embeds_present (os : Objects) : ∀ t : PT, Embeds (classify os) t → ∀ id ∈ t.allIds, (os.get id).isSome
+  | .page pid, h, id, hid => by
+    simp only [PT.allIds, List.mem_singleton] at hid
+    rw [hid]
+    exact classify_present os pid (.page pid) h (by simp)
+  | .pages pid ks, h, id, hid => by
+    simp only [Embeds] at h
+    simp only [PT.allIds, List.mem_cons] at hid
+    rcases hid with hid | hid
+    · rw [hid]; exact classify_present os pid _ h.1 (by simp)
+    · exact EmbedsL_present os ks h.2 id hid
+theorem EmbedsL_present (os : Objects) : ∀ ts : List PT, EmbedsL (classify os) ts → ∀ id ∈ PT.allIdsL ts, (os.get id).isSome
+  | [], _, id, hid => by simp [PT.allIdsL] at hid
+  | t :: ts, h, id, hid => by
+    simp only [EmbedsL] at h
+    simp only [PT.allIdsL, List.mem_append] at hid
+    rcases hid with hid | hid
+    · exact Embeds_present os t h.1 id hid
+    · exact EmbedsL_present os ts h.2 id hid
+end
+
+/-- **C12 for concrete documents.** If the catalog's `Pages` node has the forest `ks` as its
+kids, the forest is embedded in the document (every node is a `Page` / `Pages` dictionary with
+exactly these kids), its nodes are pairwise distinct objects, and intermediate nodes nest at
+most PAGE_TREE_DEPTH_LIMIT deep, then `page_iter` yields exactly the leaf pages, depth first,
+left to right — the iterator's own budget `|objects|` always suffices. -/
+theorem pageIter_dfs (trailer : Dict) (os : Objects) (cat pid : ObjId) (catd : Dict) (ks : List PT)
+    (hroot : (trailer.get ROOT).bind Obj.asRef = some cat)
+    (hcat : getDictionary os cat = some catd)
+    (hpages : (catd.get PAGES).bind Obj.asRef = some pid)
+    (hkids : kidsOf os pid = some (PT.idsL ks))
+    (hemb : EmbedsL (classify os) ks)
+    (hnodup : (PT.allIdsL ks).Nodup)
+    (hdepth : PT.heightL ks ≤ PAGE_TREE_DEPTH_LIMIT) :
+    pageIter trailer os = PT.leavesL ks := by
+  have hbudget : PT.sizeL ks ≤ os.length := by
+    rw [← PT.allIdsL_length]
+    exact nodup_present_le _ os hnodup (EmbedsL_present os ks hemb)
+  unfold pageIter
+  simp only [hroot, Option.bind_some, hcat, hpages, hkids]
+  exact iter_dfs (classify os) ks os.length hemb hbudget hdepth
+
+end Lopdf
